@@ -12,6 +12,18 @@ NOT_APPLICABLE = {
 }
 
 CLAIMS = {
+    "C09": {
+        "text": "Decides three structural clauses, not the union-preservation arithmetic: (R9.1) copy-on-write — in Determinate<PSET> every non-const use of the shared representation is preceded by mutate() on every path, mutate() copies before it releases, and nothing outside Determinate reaches the representation; (R9.2) lifting — each of the 28 per-disjunct transformers of Pointset_Powerset (checked on the C_Polyhedron, NNC_Polyhedron and Grid instantiations) applies the same-named base operation with its own parameters in order to every disjunct (full begin..end traversal, no break/return/continue); (R9.3) dimension-changing members update the powerset's own space_dim on every path. Necessary for 'copies are unaffected by later changes to the original' and 'operations act on the union as the base operation acts on each disjunct'. That omega-reduction, pairwise merge, collapse and linear_partition preserve/enlarge the union as documented is numeric and NOT decided.",
+        "design_ref": "DESIGN.md §3 C09",
+        "note": "judged on three resolved instantiations (drivers/domains.cc); reduced-flag hygiene is reported but is not a deciding clause",
+        "technique": "dominance (must-precede) rule over clang CFG with alias tracking; sibling-agreement rule on instantiated ASTs",
+    },
+    "C13": {
+        "text": "Decides ownership/coverage clauses of value semantics, not aliasing in general: (R13.1) every class whose destructor releases a member declares copy constructor and copy assignment; (R13.2) each of the 44 user-provided copy assignments is copy-and-swap, guarded by this != &y, reference-count safe (acquire before release) or purely memberwise; (R13.3) m_swap exchanges every data member (121 member obligations); (R13.4) every const_cast of the library is one of 53 confirmed sites and through a writable alias of a const ARGUMENT only the tabled representation-preserving operations are applied; (R13.8) the temporary topology mark on a const argument is undone on every normal and exceptional path; (R9.1) copy-on-write of Determinate. Necessary for 'copies are independent' and 'a const argument keeps its value'. Passing the same object as receiver and argument (x.op(x)) needs read-after-write value reasoning and is NOT decided; value preservation by the lazy-update members themselves is assumed (C01).",
+        "design_ref": "DESIGN.md §3 C13",
+        "note": "class facts come from one resolved instantiation per template; helper classes local to one translation unit without a class record are listed as not judged",
+        "technique": "class-fact rules (rule of three, member coverage), assignment-shape classifier, who-may-const_cast allowlist with effect check, try/catch pairing rule",
+    },
     "C15": {
         "text": "Decides writer/reader agreement, not the round-trip behaviour: for all 37 ascii_dump/ascii_load pairs the linearised writer and reader agree on the order of keyword tokens (literals concatenated and split as the stream would, ?: / switch / if arms as alternatives), of sub-object dumps/loads (by resolved class) and of directly streamed members (R15.1); every literal the reader insists on can be produced by the writer (R15.2); in the five Status classes each keyword's test_X in the writer pairs with set_X and reset_X of the same flag in the reader and both polarities are restored (R15.3); every data member of 13 composite classes is named by both the dump and the load or is a reasoned exception (R15.4). Necessary for 'loading a dump yields the same value and the same text'. Number I/O of coefficients and special float values, loop extents and the semantic equality of the loaded object are NOT decided.",
         "design_ref": "DESIGN.md §3 C15",
